@@ -42,8 +42,9 @@ func (l Lin) Opaque() bool {
 }
 
 // smallBounded: every atom is a remainder by a constant (x%K) with a small non-negative
-// coefficient, so the value fits any 32-bit or wider integer type whatever x is.
-func (l Lin) smallBounded() bool {
+// coefficient, so the value fits any 32-bit or wider integer type whatever x is; for a 64-bit
+// target a quotient by a constant >= 1024 is small enough as well.
+func (l Lin) smallBounded(wide bool) bool {
 	if l.C0 < 0 || l.C0 > 1<<30 {
 		return false
 	}
@@ -52,6 +53,14 @@ func (l Lin) smallBounded() bool {
 			return false
 		}
 		i := strings.LastIndex(k, "%")
+		if j := strings.LastIndex(k, "/"); j > i && wide {
+			// a quotient by a constant >= 1024 of a 64-bit value is below 2^54
+			var d int64
+			if _, err := fmt.Sscanf(k[j+1:], "%d", &d); err == nil && d >= 1024 && !strings.ContainsAny(k[j+1:], "+-*% ") {
+				continue
+			}
+			return false
+		}
 		if i < 0 {
 			return false
 		}
@@ -154,7 +163,7 @@ func linEval(v ssa.Value, src func(ssa.Value) string, env map[*ssa.Parameter]ssa
 	}
 	switch x := v.(type) {
 	case *ssa.Convert:
-		if inner := linEval(x.X, src, env, depth+1); lossyIntConv(x) && !inner.smallBounded() {
+		if inner := linEval(x.X, src, env, depth+1); lossyIntConv(x) && !inner.smallBounded(convTo64(x)) {
 			return linAtom("conv<" + x.X.Type().String() + "→" + x.Type().String() + ">(" + inner.String() + ")")
 		}
 		return linEval(x.X, src, env, depth+1)
@@ -268,7 +277,7 @@ func linEvalSub(v ssa.Value, src func(ssa.Value) string, env, outer map[*ssa.Par
 	}
 	switch x := v.(type) {
 	case *ssa.Convert:
-		if inner := linEvalSub(x.X, src, env, outer, depth+1); lossyIntConv(x) && !inner.smallBounded() {
+		if inner := linEvalSub(x.X, src, env, outer, depth+1); lossyIntConv(x) && !inner.smallBounded(convTo64(x)) {
 			return linAtom("conv<" + x.X.Type().String() + "→" + x.Type().String() + ">(" + inner.String() + ")")
 		}
 		return linEvalSub(x.X, src, env, outer, depth+1)
@@ -359,4 +368,14 @@ func lossyIntConv(c *ssa.Convert) bool {
 		return true
 	}
 	return fu && !tu && bits(to) <= bits(from)
+}
+
+func convTo64(c *ssa.Convert) bool {
+	if b, ok := c.Type().Underlying().(*types.Basic); ok {
+		switch b.Kind() {
+		case types.Int, types.Int64, types.Uint, types.Uint64, types.Uintptr:
+			return true
+		}
+	}
+	return false
 }
